@@ -124,7 +124,10 @@ class FlatMieContribution(Contribution):
         P_min = P_left[save_start:save_stop+1]
         P_max = P_right[save_start:save_stop+1]
         weight = np.minimum(P_range[-1], P_max) - np.maximum(P_range[0], P_min)
-        weight /= weight.max()
+        # Layers that do not overlap the window contribute nothing
+        weight = np.maximum(weight, 0.0)
+        if weight.shape[0] > 0 and weight.max() > 0:
+            weight /= weight.max()
         sigma_xsec = np.zeros(shape=(self._nlayers, wngrid.shape[0]))
         sigma_xsec[save_start:save_stop+1] = weight[:,  None]*self.mieMixing
 
